@@ -222,6 +222,93 @@ def run_nofault(ctx, n):
 
 
 # ---------------------------------------------------------------------------
+# multi-scale datasets (every scale has its own size, chunk size and sharding)
+# ---------------------------------------------------------------------------
+@st.composite
+def multiscale_cases(draw):
+    n = draw(st.integers(2, 3))
+    sharded = draw(st.booleans())
+    scales = []
+    for i in range(n):
+        cs = draw(st.sampled_from([1, 2, 3, 4]))
+        chunk = [cs] * 3 if sharded else [draw(st.integers(1, 4))
+                                           for _ in range(3)]
+        scales.append({"size": [draw(st.integers(1, 5)) for _ in range(3)],
+                       "chunk": chunk,
+                       "bits": [draw(st.integers(0, 2)) for _ in range(3)],
+                       "enc": [draw(st.sampled_from(["raw", "gzip"])),
+                               draw(st.sampled_from(["raw", "gzip"]))]})
+    return {"multiscale": True, "sharded": sharded, "scales": scales,
+            "dtype": draw(st.sampled_from(["uint8", "uint16"])),
+            "form": draw(st.sampled_from(URL_FORMS)),
+            "seed": draw(st.integers(0, 10 ** 6))}
+
+
+def check_multiscale(ctx, case):
+    from neuroglancer_scripts import accessor
+    root = ctx.tmpdir("httpm")
+    try:
+        d = os.path.join(root, "ds")
+        scales = []
+        for i, p in enumerate(case["scales"]):
+            scales.append(ds.make_scale(
+                "s%d" % i, p["size"], p["chunk"], "raw",
+                sharding=ds.sharding_dict(p["bits"][0], p["bits"][1],
+                                          p["bits"][2], p["enc"][0],
+                                          p["enc"][1])
+                if case["sharded"] else None))
+        info = ds.make_info(case["dtype"], 1, scales)
+        kind = {"type": "sharded", "strategy": "in memory"} \
+            if case["sharded"] else {"type": "file", "flat": True,
+                                     "gzip": False}
+        pio = ds.new_dataset(info, kind, d)
+        rng = np.random.default_rng(case["seed"])
+        for sc_ in scales:
+            X, Y, Z = sc_["size"]
+            vol = rng.integers(0, 250, size=(1, Z, Y, X)).astype(
+                case["dtype"])
+            ds.write_scale(pio, sc_, vol)
+            if case["sharded"]:
+                pio.accessor.close()
+        local = accessor.get_accessor_for_url(d)
+        n = 0
+        with httpd.StaticServer(root, rewrite=False) as srv:
+            url = spell(srv.url + "ds", case["form"])
+            remote = accessor.get_accessor_for_url(url)
+            for sc_ in scales:
+                for cc in ds.chunk_coords_list(sc_["size"],
+                                               sc_["chunk_sizes"][0]):
+                    want = local.fetch_chunk(sc_["key"], cc)
+                    try:
+                        got = remote.fetch_chunk(sc_["key"], cc)
+                    except Exception as exc:
+                        ctx.fail("chunk %s of scale %s (size %s chunk %s) "
+                                 "cannot be fetched over HTTP: %s %s (scales "
+                                 "%s)" % (cc, sc_["key"], sc_["size"],
+                                          sc_["chunk_sizes"][0],
+                                          type(exc).__name__, exc,
+                                          case["scales"]))
+                    if bytes(got) != bytes(want):
+                        ctx.fail("chunk %s of scale %s over HTTP differs "
+                                 "from the local bytes (scales %s)" % (
+                                     cc, sc_["key"], case["scales"]))
+                    n += 1
+        return n
+    finally:
+        ctx.rmtree(root)
+
+
+def run_multiscale(ctx, n):
+    def check(ctx, case):
+        k = check_multiscale(ctx, case)
+        ctx.record(case, k >= 3 and len({tuple(p["chunk"]) for p in
+                                         case["scales"]}) >= 2,
+                   ["sharded" if case["sharded"] else "plain",
+                    "scales%d" % len(case["scales"])])
+    ctx.run_hypothesis(multiscale_cases(), check, n)
+
+
+# ---------------------------------------------------------------------------
 # faults
 # ---------------------------------------------------------------------------
 PLAIN_FAULTS = ["404", "403", "500", "503", "close_before",
@@ -344,6 +431,8 @@ def run_fault_all(ctx, n):
 
 
 def replay(ctx, case):
+    if case.get("multiscale"):
+        return check_multiscale(ctx, case)
     if "fault_kind" in case:
         check_fault(ctx, case)
     else:
@@ -353,6 +442,8 @@ def replay(ctx, case):
 SUBS = [
     Sub("nofault", run_nofault, replay, quick=250, thorough=5000,
         min_per_shard=10),
+    Sub("multiscale", run_multiscale, replay, quick=60, thorough=2000,
+        min_per_shard=8),
     Sub("faults", run_fault, replay, quick=400, thorough=10000,
         min_per_shard=10),
     Sub("faults_all", run_fault_all, replay, quick=40, thorough=800,
